@@ -575,6 +575,53 @@ func init() {
 		for i, b := range bad {
 			run(b, fmt.Sprintf("must-reject #%d", i), nil, true)
 		}
+		// float literals the tree model does not carry (the sign of a zero, exponents of millions of digits): judged by the
+		// Go-side oracle alone — the value on the wire is the correctly rounded one, sign included
+		for _, lit := range []string{"-0", "-0.0", "-0e3", "-0.0e-5", "0", "0.0"} {
+			for _, dtn := range []string{"Float32", "Double64"} {
+				var want interface{}
+				neg := strings.HasPrefix(lit, "-")
+				if dtn == "Float32" {
+					want = float32(0)
+					if neg {
+						want = float32(math.Copysign(0, -1))
+					}
+				} else {
+					want = float64(0)
+					if neg {
+						want = math.Copysign(0, -1)
+					}
+				}
+				dtc := map[string]rscp.DataType{"Float32": rscp.Float32, "Double64": rscp.Double64}[dtn]
+				for _, txt := range []string{`[[12345,"` + dtn + `",` + lit + `]]`, `[{"Tag":12345,"DataType":"` + dtn + `","Value":` + lit + `}]`} {
+					got := loop.ask("in " + hexOf([]byte(txt)))
+					prop := "pass"
+					if w := "ok " + msgsString([]rscp.Message{{Tag: 12345, DataType: dtc, Value: want}}) + " ; send=ok"; got != w {
+						prop = "FAIL C12 the float literal " + lit + " is not transmitted as written: " + txt + " gives " + trunc(got, 120)
+					}
+					cw.add("skip", "skip", "N jsonin zero-literal", prop)
+				}
+			}
+		}
+		for _, lit := range []string{"1e-2000000", "0e99999999", "0.0e-99999999"} {
+			txt := `[[12345,"Double64",` + lit + `]]`
+			got := loop.ask("in " + hexOf([]byte(txt)))
+			prop := "pass"
+			if w := "ok " + msgsString([]rscp.Message{{Tag: 12345, DataType: rscp.Double64, Value: float64(0)}}) + " ; send=ok"; got != w {
+				prop = "FAIL C12 the float literal " + lit + " (which rounds to 0) is not transmitted as 0: gives " + trunc(got, 120)
+			}
+			cw.add("skip", "skip", "N jsonin huge-exponent", prop)
+		}
+		// the exact name of a data type as second element of a pair is the type (whatever the tag's own type is)
+		for _, tg := range []rscp.Tag{rscp.RSCP_REQ_SET_ENCRYPTION_PASSPHRASE, g.reqByType[rscp.CString][0], g.reqByType[rscp.None][0], g.reqByType[rscp.UChar8][0], 12345} {
+			for _, d := range definedTypes {
+				var want []rscp.Message
+				if d == rscp.None {
+					want = []rscp.Message{{Tag: tg, DataType: rscp.None}}
+				}
+				run(jarr(jarr(g.tagJ(tg, true), jstr(d.String()))), "exact type name as second element", want, false)
+			}
+		}
 		// data type names are case sensitive: other spellings are no type names — as a type they are refused, as the
 		// second element of a pair they are the string value
 		for _, d := range definedTypes {
